@@ -396,7 +396,13 @@ def needed(case, cols, rows):
     H, W = case["src"]["shape"]
     with np.errstate(all="ignore"):
         fin = np.isfinite(cols) & np.isfinite(rows)
-        on = fin & (cols >= -0.5) & (cols < W - 0.5) & (rows >= -0.5) & (rows < H - 0.5)
+        if case["api"] == "swath":
+            # a SwathDefinition carries pixel CENTRES only (no pixel footprint, no extent): its domain is the hull of
+            # its pixel centres; the band between that hull and the extent of the area the test swath was cut from
+            # does not belong to the swath
+            on = fin & (cols >= 0) & (cols <= W - 1) & (rows >= 0) & (rows <= H - 1)
+        else:
+            on = fin & (cols >= -0.5) & (cols < W - 0.5) & (rows >= -0.5) & (rows < H - 0.5)
         if case["src"]["kind"] == "geos":
             on &= geos_disk_mask(case["src"], np.where(fin, cols, 0.0), np.where(fin, rows, 0.0))
     return on
